@@ -178,3 +178,60 @@ func ZZ_C16_QueuedBehindSwap() {
 	}
 	zzAssert(zzLockDepth(&s.RWMutex) == 0, "C16.queued.lock-left-held")
 }
+
+// C16 (the new size survives a restart of the replica process): the replica is started
+// with `--size <size at creation>` every time, and start-up calls Server.Create(size) and
+// then Open.  After an online grow the flag is stale: the restarted replica must still
+// come up at the grown size - volume.meta is what counts - with the block map covering
+// it and the data written into the added range readable.
+func ZZ_C16_RestartAfterGrow() {
+	fs := zzInstallFS()
+	ActionChannel = make(chan string, 5)
+	s := &Server{Dir: zzDir, defaultSectorSize: 4096, MonitorChannel: make(chan struct{})}
+	zzExtentsSupported = true
+	zzAssume(s.Create(zzSize) == nil)
+	zzAssume(s.Open() == nil)
+	s.r.mode = types.RW
+	buf := make([]byte, 4096)
+	buf[5] = 0x31
+	_, werr := s.WriteAt(buf, 4096)
+	zzAssume(werr == nil)
+	size := int64(zzSize)
+	if zzNondetBool("grown") {
+		zzAssume(s.Resize("16K") == nil)
+		size = 2 * zzSize
+		buf[5] = 0x32
+		_, werr = s.WriteAt(buf, zzSize)
+		zzAssume(werr == nil)
+		if zzNondetBool("snapshot-after-grow") {
+			zzAssume(s.Snapshot("g", true, "t") == nil)
+		}
+	}
+	if zzNondetBool("clean-shutdown") {
+		zzAssume(s.Close() == nil)
+	}
+	// restart: a new process, the same directory, the stale flag
+	fs.Revive()
+	s2 := &Server{Dir: zzDir, defaultSectorSize: 4096, MonitorChannel: make(chan struct{})}
+	flag := []int64{zzSize, 0, 2 * zzSize, 4096}[zzConcretize(zzChoice("size-flag", 4))]
+	zzAssert(s2.Create(flag) == nil, "C16.restart.create-on-existing-directory-failed")
+	zzAssert(s2.Open() == nil, "C16.restart.open-failed")
+	if s2.r == nil {
+		return
+	}
+	s2.r.mode = types.RW
+	zzAssert(s2.r.info.Size == size, "C16.restart.replica-comes-up-at-another-size-than-it-had")
+	zzAssert(int64(len(s2.r.volume.location)) == size/4096, "C16.restart.block-map-does-not-cover-the-volume")
+	info, ierr := ReadInfo(zzDir)
+	zzAssert(ierr == nil && info.Size == size, "C16.restart.volume-metadata-size-changed-by-restart")
+	rb := make([]byte, 4096)
+	_, rerr := s2.ReadAt(rb, 4096)
+	zzAssert(rerr == nil && rb[5] == 0x31, "C16.restart.old-data-lost")
+	if size > zzSize {
+		_, rerr = s2.ReadAt(rb, zzSize)
+		zzAssert(rerr == nil && rb[5] == 0x32, "C16.restart.data-in-the-added-range-lost")
+		zzReach("C16.restart.grown")
+	}
+	zzExtentsSupported = false
+	zzReach("C16.restart.done")
+}
